@@ -13,6 +13,13 @@ the request-method header present is neither approved nor withdrawn (seeded s6-c
 truthiness of a header value from comparisons with constants decided on the path (``!= ''``, ``not in (None, '')``,
 ``== 'GET'``), so equivalent spellings of "header present and non-empty" stay silent.
 
+Wave 8: R1 also decides that no request header the decision reads (Origin, Access-Control-Request-Method/-Headers; collected from the
+table) is among the headers of which ``asgi.Request.__init__`` keeps only the LAST field line (the set is read from the overwrite/combine
+branch of its header loop and folded across modules; seeded s8-c20-1).  Ordering comparisons (``200 <= resp.status_code <= 299``) are read
+as ONE atom ``cmp(...)`` of unknown value - inside the vocabulary only when every symbolic operand is an attribute of the response object -
+and R4 requires every store of an approval header to lie on a path that tested the ``req_succeeded`` parameter and found it true (seeded
+s8-c20-2).
+
 Contract names used as anchors: the parameter positions of
 ``process_response(self, req, resp, resource, req_succeeded)``, the public
 attributes ``allow_origins`` / ``allow_credentials`` / ``expose_headers``, the
@@ -100,6 +107,14 @@ class Table:
         bad = []
         for a in leaf.decisions:
             inner = a[a.index('(') + 1:-1]
+            if a.startswith('cmp('):
+                # an ordering comparison (c20_helpers.Executor._ordering): inside the vocabulary only when every symbolic operand is an
+                # attribute of the response object - whatever the responder / the error handlers left there (status_code, ...), a free
+                # value like the `pre` headers; both outcomes are feasible whatever the request and the success flag are
+                if all(part.startswith(("'", '"', 'resp.')) or part.lstrip('-')[:1].isdigit() for part in _split_args(inner)):
+                    continue
+                bad.append(a)
+                continue
             for part in _split_args(inner):
                 if part.startswith(("'", '"')) or part[:1].isdigit() or part in ('None', 'True', 'False'):
                     continue
@@ -226,6 +241,143 @@ def r1_gates(run):
         t.require(run, t.allowed, les,
                   'a CORS response header is written only for an origin that allow_origins admits', node, func,
                   'allow_origins={"https://a"} and Origin: https://evil - the response gains %s' % short(node.args[0], 50))
+    _decision_headers_not_last_wins(run, t)
+
+
+ASGI_REQ_INIT = 'falcon.asgi.request.Request.__init__'
+
+
+def _fold_name_set(p, module, e, func=None, depth=0):
+    """set of lower-case header names denoted by `e`: a constant collection of str/bytes, a module-level name of one (followed across
+    modules), ``frozenset/set/tuple/list(<such>)``, or a comprehension ``[h.encode() for h in <such>]`` (elementwise encode/lower/decode
+    only, no filter).  Anything else is an unknown idiom."""
+    if depth > 6:
+        raise UnknownIdiom('header-name set %s: definition chain too long' % short(e))
+    v = p.fold(module, e, None, func)
+    if isinstance(v, (set, frozenset, tuple, list)) and all(isinstance(x, (str, bytes)) for x in v):
+        return {(x.decode('latin-1') if isinstance(x, bytes) else x).lower() for x in v}
+    if isinstance(e, ast.Call) and isinstance(e.func, ast.Name) and e.func.id in ('frozenset', 'set', 'tuple', 'list') and not e.keywords:
+        if not e.args:
+            return set()
+        if len(e.args) == 1:
+            return _fold_name_set(p, module, e.args[0], func, depth + 1)
+    if isinstance(e, (ast.ListComp, ast.SetComp, ast.GeneratorExp)) and len(e.generators) == 1 and not e.generators[0].ifs \
+            and isinstance(e.generators[0].target, ast.Name):
+        x = e.elt
+        while isinstance(x, ast.Call) and isinstance(x.func, ast.Attribute) and x.func.attr in ('encode', 'decode', 'lower') and not x.keywords \
+                and all(isinstance(a, ast.Constant) for a in x.args):
+            x = x.func.value
+        if isinstance(x, ast.Name) and x.id == e.generators[0].target.id:
+            return _fold_name_set(p, module, e.generators[0].iter, func, depth + 1)
+    if isinstance(e, ast.BinOp) and isinstance(e.op, (ast.BitOr, ast.Add)):
+        return _fold_name_set(p, module, e.left, func, depth + 1) | _fold_name_set(p, module, e.right, func, depth + 1)
+    if isinstance(e, ast.Call) and isinstance(e.func, ast.Attribute) and e.func.attr == 'union' and not e.keywords:
+        out = _fold_name_set(p, module, e.func.value, func, depth + 1)
+        for a in e.args:
+            out |= _fold_name_set(p, module, a, func, depth + 1)
+        return out
+    if isinstance(e, (ast.Name, ast.Attribute)):
+        q = p.resolve_expr(module, e, func)
+        if q:
+            q = p.canonical(q)
+            mod, _, nm = q.rpartition('.')
+            m2 = p.modules.get(mod)
+            if m2 is not None and nm in m2.consts and m2.consts[nm] is not e:
+                return _fold_name_set(p, m2, m2.consts[nm], None, depth + 1)
+    raise UnknownIdiom('the header-name set %s is not a constant collection the analysis can read' % short(e))
+
+
+def _last_wins_headers(p):
+    """(function, {lower-case names}) - the request headers for which the ASGI request keeps only the LAST of several field lines.
+    Read from the place where ``asgi.Request.__init__`` builds its header table: one ``if`` whose two arms are ``D[k] = v`` (overwrite) and
+    ``D[k] += ...`` (combine into the list form ``a,b``); its test is a disjunction of ``k not in D`` (first occurrence) and
+    ``k in <constant set>`` - the union of those sets is the answer."""
+    f = p.func(ASGI_REQ_INIT)
+    found = []
+    for n in walk_self(f.node):
+        if not isinstance(n, ast.If):
+            continue
+
+        def store(stmts, combine):
+            """(table, key) of the first `D[k] = v` (combine=False: v does not read D[k]) / `D[k] += v`, `D[k] = D[k] + v` (combine=True)"""
+            for s in stmts:
+                t = None
+                if isinstance(s, ast.AugAssign):
+                    t, reads_old = s.target, True
+                elif isinstance(s, ast.Assign) and len(s.targets) == 1:
+                    t = s.targets[0]
+                    reads_old = isinstance(t, ast.Subscript) and any(isinstance(x, ast.Subscript) and ast.dump(x.value) == ast.dump(t.value)
+                                                                     and ast.dump(x.slice) == ast.dump(t.slice) for x in ast.walk(s.value))
+                if isinstance(t, ast.Subscript) and isinstance(t.value, ast.Name) and isinstance(t.slice, ast.Name) and reads_old == combine:
+                    return t.value.id, t.slice.id
+            return None
+        for over, comb, truth in ((n.body, n.orelse, True), (n.orelse, n.body, False)):
+            a, b = store(over, False), store(comb, True)
+            if a is not None and a == b:
+                found.append((n, a[0], a[1], truth))
+    if not found:
+        raise AnchorError('%s: the branch that either overwrites or combines a repeated header line was not found' % ASGI_REQ_INIT)
+    if len(found) > 1:
+        raise UnknownIdiom('%s: several overwrite/combine branches' % ASGI_REQ_INIT)
+    n, table, key, truth = found[0]
+    test = n.test
+    if not truth:
+        # the overwrite arm is the else-arm: negate the test (not X -> X; De Morgan over a conjunction of membership tests)
+        def neg(c):
+            if isinstance(c, ast.UnaryOp) and isinstance(c.op, ast.Not):
+                return c.operand
+            if isinstance(c, ast.Compare) and len(c.ops) == 1 and isinstance(c.ops[0], (ast.In, ast.NotIn)):
+                return ast.Compare(left=c.left, ops=[ast.NotIn() if isinstance(c.ops[0], ast.In) else ast.In()], comparators=c.comparators)
+            raise UnknownIdiom('%s: overwrite arm under the false outcome of %s' % (ASGI_REQ_INIT, short(test)))
+        if isinstance(test, ast.BoolOp) and isinstance(test.op, ast.And):
+            test = ast.BoolOp(op=ast.Or(), values=[neg(v) for v in test.values])
+        else:
+            test = neg(test)
+    disj = test.values if isinstance(test, ast.BoolOp) and isinstance(test.op, ast.Or) else [test]
+    names = set()
+    first = False
+    for d in disj:
+        if isinstance(d, ast.Compare) and len(d.ops) == 1 and isinstance(d.left, ast.Name) and d.left.id == key:
+            c = d.comparators[0]
+            if isinstance(d.ops[0], ast.NotIn) and isinstance(c, ast.Name) and c.id == table:
+                first = True
+                continue
+            if isinstance(d.ops[0], ast.In):
+                names |= _fold_name_set(p, f.module, c, f)
+                continue
+        raise UnknownIdiom('%s: condition %s of the overwrite arm' % (ASGI_REQ_INIT, short(d)))
+    if not first:
+        raise UnknownIdiom('%s: the overwrite arm is not taken for the first occurrence of a header' % ASGI_REQ_INIT)
+    return f, n, names
+
+
+def _decision_headers_not_last_wins(run, t):
+    """R1, sub-clause (wave 8, seeded s8-c20-1): the request headers the CORS decision reads (Origin, Access-Control-Request-Method,
+    Access-Control-Request-Headers - collected from the decision table) are not among the headers for which the ASGI request keeps only the
+    LAST of several field lines.  A WSGI server hands repeated lines over combined (``a,b``, RFC 3875 / PEP 3333 practice), and a combined
+    value matches no configured origin; last-wins lets the client choose which of its lines the policy sees.
+    W: ASGI request with ``Origin: https://evil`` + ``Origin: https://app``: granted as https://app (with credentials), WSGI grants nothing."""
+    p = run.project
+    f, node, last_wins = _last_wins_headers(p)
+    run.use(f)
+    run.extra['c20_asgi_last_wins_headers'] = sorted(last_wins)
+    read = set()
+    for l in t.leaves:
+        for a in l.decisions:
+            read.update(re.findall(r'reqhdr\(([^(),]+)', a))
+        for ev in l.events:
+            v = ev[2]
+            if isinstance(v, tuple) and v and v[0] == 'reqhdr':
+                read.add(v[1])
+    if 'origin' not in read or ACRM not in read:
+        raise AnchorError('%s does not read Origin / Access-Control-Request-Method' % PR)
+    for h in sorted(read):
+        run.check(h not in last_wins,
+                  'the request header %s, read by the CORS decision, is not one of the headers of which the ASGI request keeps only the last '
+                  'field line (repeated lines are combined, as a WSGI server does)' % t.spelled_req(h), f, 'last-wins header: %s' % h, where=f.loc(node),
+                  witness=['last-wins set: %s' % sorted(last_wins)],
+                  runtime_witness='an ASGI request with two %s lines, the last one acceptable to the policy: the grant is decided on the last line alone, '
+                                  'while the same request through WSGI (lines combined) is granted nothing' % t.spelled_req(h))
 
 
 # ---------------------------------------------------------------------------
@@ -358,6 +510,8 @@ def _approve(run):
     # only: approval headers appear on no other exchange
     need = f_and(t.granted, t.preflight, f_not(t.allow_absent))
     for node, func, les in t.sites('set', lambda h: h in APPROVE):
+        if not _gated_by_success_flag(run, t, node, func, les):
+            continue    # reported; the conjunction below would only repeat it (or stumble over the atom that replaced the flag)
         t.require(run, need, les, 'preflight approval headers are written only for a successful OPTIONS carrying '
                   'Access-Control-Request-Method whose response advertises an Allow set', node, func,
                   'a failed (req_succeeded false) or non-OPTIONS exchange whose response gains %s' % short(node.args[0], 50))
@@ -365,6 +519,31 @@ def _approve(run):
             bad = next(((l, ev) for (l, ev) in les if ev[2] != ('prehdr', 'allow')), None)
             run.check(bad is None, 'Access-Control-Allow-Methods is the Allow value the responder advertised', func, node,
                       witness=(bad[0].describe() + ['value: %s' % vkey(bad[1][2])]) if bad else None)
+
+
+def _gated_by_success_flag(run, t: Table, node, func, les) -> bool:
+    """R4 (wave 8, seeded s8-c20-2): every path to a store of a preflight-approval header has DECIDED the truth of the ``req_succeeded``
+    parameter, and decided it true.  The flag is the only thing that tells the middleware whether an exception left the request cycle (R5 /
+    C03 R2 decide that the apps compute it so); no other value - the response status, a header - establishes it.  A path on which the flag
+    was never consulted is realised with req_succeeded=False whatever else was tested (atoms over distinct values are independent), unless
+    an atom outside the vocabulary mentions the flag itself (-> unknown idiom).
+    W: an OPTIONS responder sets Allow and raises; a custom error handler leaves the status at 200: the failed exchange is approved."""
+    flag = t.succ_atom[len('truthy('):-1]
+    bad = None
+    for (l, ev) in les:
+        if ev3(lit(t.succ_atom), l) is True:
+            continue
+        hinge = [a for a in t.unknown_atoms(l) if flag in a]
+        if hinge:
+            raise UnknownIdiom('%s: the path to %s tests the success flag in a way the interpreter does not read: %s' % (func.qual, short(node, 60), hinge[0]))
+        bad = l
+        break
+    run.check(bad is None, 'preflight approval headers are written only on paths that tested the req_succeeded parameter and found it true '
+              '(no other value stands in for "no exception left the request cycle")', func, node,
+              witness=(bad.describe() + ['%s: %s on this path' % (t.succ_atom, 'false' if ev3(lit(t.succ_atom), bad) is False else 'never consulted')]) if bad else None,
+              runtime_witness='an OPTIONS responder that sets Allow and then raises, with an error handler that leaves the status at 200: '
+                              'the failed exchange gains %s' % short(node.args[0], 50))
+    return bad is None
 
 
 def _is_cors_ctor(p, f: Func, c: ast.Call) -> bool:
@@ -552,10 +731,10 @@ def check(run):
     run.assume('Request.get_header / Response.get_header / set_header / delete_header do not raise and have no effect beyond the named header')
     run.assume('a response header the function has not written or deleted may have been set by the responder (state "pre")')
     run.assume('atoms over distinct symbolic values are independent (every combination of branch outcomes is considered feasible)')
-    run.rule('R1', r1_gates, 'every Access-Control-* store is gated by Origin present and origin allowed', floor=12)
+    run.rule('R1', r1_gates, 'every Access-Control-* store is gated by Origin present and origin allowed', floor=13)
     run.rule('R2', r2_credentials, 'credentials only for configured origins, origin echoed, no "*" inside configured sets', floor=5)
     run.rule('R3', r3_withdraw, 'preflight without Allow withdraws every grant; Allow removed on both preflight branches', floor=7)
-    run.rule('R4', r4_approve, 'approve branch conditions, cors_enable wiring, Allow sources', floor=16)
+    run.rule('R4', r4_approve, 'approve branch conditions, cors_enable wiring, Allow sources', floor=17)
     # the preflight is approved only under req_succeeded: the flag the apps
     # hand to process_response must be true only after an exchange in which
     # nothing was raised (shared with C03 R2)
